@@ -212,6 +212,7 @@ def parseQOp (a : List String) : M QOp := do
   | "len" => return .len
   | "iter" => return .iter
   | "riter" => return .riter
+  | "ends" => return .ends
   | "imut" => return .iterMutAppend (← unh (← argAt a 1))
   | "rimut" => return .rIterMutAppend (← unh (← argAt a 1))
   | "idx" => return .index (← unh (← argAt a 1))
